@@ -170,7 +170,13 @@ func (g *gen) selection(def *ast.Definition, depth int, root bool) string {
 				if composite && depth <= 0 {
 					continue
 				}
-				if def.Name == "Mutation" || def.Name == "Query" || def.Name == "Subscription" || true {
+				upload := false
+				for _, a := range f.Arguments {
+					if n := a.Type.Name(); n == "Upload" || n == "UpIn" {
+						upload = true // upload fields belong to the wire-fault scenario only
+					}
+				}
+				if !upload {
 					cands = append(cands, f)
 				}
 			}
